@@ -105,6 +105,26 @@ fn write_into<W: std::io::Write + std::io::Seek>(p: &Packet, comp: bool, w: &mut
     }
 }
 
+/// a growable writer whose write() takes at most k bytes at a time
+struct Chunked {
+    inner: Cursor<Vec<u8>>,
+    k: usize,
+}
+impl std::io::Write for Chunked {
+    fn write(&mut self, buf: &[u8]) -> std::io::Result<usize> {
+        let n = buf.len().min(self.k);
+        self.inner.write(&buf[..n])
+    }
+    fn flush(&mut self) -> std::io::Result<()> {
+        Ok(())
+    }
+}
+impl std::io::Seek for Chunked {
+    fn seek(&mut self, pos: std::io::SeekFrom) -> std::io::Result<u64> {
+        self.inner.seek(pos)
+    }
+}
+
 fn sink_events(out: &mut Out, st: &mut Stats, pkt: &Value, dense: bool) -> Result<(), String> {
     let p = construct_packet(pkt)?;
     for comp in [false, true] {
@@ -130,6 +150,13 @@ fn sink_events(out: &mut Out, st: &mut Stats, pkt: &Value, dense: bool) -> Resul
                 let o = write_into(&p, comp, &mut c);
                 ev("vec-cursor", start, -1, &prefill, o, c.get_ref());
             }
+        }
+        // a writer that accepts at most k bytes per write() call (a pipe, a rate-limited or chunking writer): a
+        // serialiser must use write_all, or loop
+        for k in [1usize, 5, 11] {
+            let mut w = Chunked { inner: Cursor::new(Vec::new()), k };
+            let o = write_into(&p, comp, &mut w);
+            ev(&format!("chunked-{k}"), 0, -1, &[], o, w.inner.get_ref());
         }
         // fixed-size writers: every capacity 0..=n+2 (dense) or the boundary ones
         let caps: Vec<usize> = if dense && n <= 90 { (0..=n + 2).collect() } else { vec![0, 1, 11, 12, 13, n / 2, n.saturating_sub(1), n, n + 1, n + 2, n + 64] };
